@@ -72,7 +72,9 @@ Accepts(defs, s, v) ==
   IF s.any THEN TRUE
   ELSE IF s.ref # ""
        THEN LET d == Lookup(defs, s.ref) IN IF d.missing THEN FALSE ELSE Accepts(defs, d.s, v)
-  ELSE IF v.t = "null" /\ s.nullable THEN TRUE          \* OpenAPI 3.0: nullable admits null
+  \* OpenAPI 3.0: `nullable` admits null -- but other constraints keep their meaning (3.0.3): an `enum`
+  \* that does not list null still excludes it
+  ELSE IF v.t = "null" /\ s.nullable /\ (s.hasEnum => \E i \in DOMAIN s.enum : Eq(s.enum[i], v)) THEN TRUE
   ELSE
     /\ s.type # "" => IsType(s.type, v)
     /\ s.hasEnum => \E i \in DOMAIN s.enum : Eq(s.enum[i], v)
